@@ -419,7 +419,8 @@ def describe(tier):
                   'kill (with torn-write prefixes) simulated at, every raw file operation '
                   'of one append, via a syscall-level operation log under _pyio',
         rule='appends of a small and a 20 KB record onto archives with 1/2/4 earlier '
-             'records (plus the constructor\'s first warcinfo append), plain and gzip; for '
+             'records (plus the constructor\'s first warcinfo append, onto an empty archive and - a '
+             '--warc-append run - onto the records of an earlier run), plain and gzip; for '
              'every operation index i of the append\'s log: OSError at i (and a short write '
              'followed by OSError for writes); for every i and every torn prefix of a write: '
              'the directory rebuilt from the log prefix is checked; an I/O error followed by '
